@@ -260,7 +260,7 @@ def check(ctx):
     ctx.lean_gate()
     dt64 = torch.float64
     torch.manual_seed(ctx.seed % (2 ** 31))
-    n = 220 if ctx.tier == "quick" else 3000
+    n = 1000 if ctx.tier == "quick" else 5000
     reqs, metas = [], []
     for it in range(n):
         name = g.choice(GENERATORS)
@@ -347,7 +347,7 @@ def check(ctx):
                 break
     # ---------------- distributional statements: large-sample estimates with 5-sigma error bars (search support)
     NP = 20000 if ctx.tier == "quick" else 200000
-    sweeps = 2 if ctx.tier == "quick" else 8
+    sweeps = 3 if ctx.tier == "quick" else 8
     for sw in range(sweeps):
         for name in GENERATORS:
             sp_ = sweep_params(g, name)
